@@ -20,7 +20,7 @@ RULE = ("case = operation {get, multiget, getnext, multigetnext, set, multiset, 
         "bulktable} x clock schedule (start over Integer32, increments from {0, 0.3, 0.999, 1, 1.5, 60} per read) x protocol "
         "{v1, v2c, v3 x 3 levels} x perturbation {none, id+1, id-1, id 0, random id, the previous request's id, other "
         "community, empty community, other version number, discovery msgID} applied to the k-th response x optional history "
-        "(warm-up exchange under other credentials, then configure); non-trivial = the clock advances by >= 1 s between two "
+        "(warm-up exchange under other credentials, then configure) x optionally the same read operation twice in flight on the client (echo direction); non-trivial = the clock advances by >= 1 s between two "
         "reads inside the operation, or the response id differs from the request id; distinct = SHA-1 of canonical JSON case")
 ASSUMPTIONS = [
     "nothing is assumed about how request ids are derived; the clock is only an adversarial environment",
@@ -155,7 +155,19 @@ def run_case(case) -> Result:
 
     agent.respond_hook = hook
     agent.mangle = mangle
-    client = vworld.Client("192.0.2.1", vworld.creds(via or proto), sender=agent)
+    async def yielding_sender(endpoint, data, timeout=None, retries=None, loop=None):
+        # gives other tasks of the loop a turn between sending and receiving, as a real socket would
+        import asyncio
+
+        await asyncio.sleep(0)
+        resp = agent.handle(bytes(data), timeout=timeout, retries=retries)
+        await asyncio.sleep(0)
+        return resp
+
+    twice = case.get("twice", False) and pert["kind"] == "none" and op not in ("set", "multiset")
+    if twice:
+        classes.add("two_in_flight")
+    client = vworld.Client("192.0.2.1", vworld.creds(via or proto), sender=yielding_sender if twice else agent)
     O = vworld.OID
     got = []
 
@@ -177,6 +189,24 @@ def run_case(case) -> Result:
                 agent.community = old
                 st8["warmup"] = False
             client.configure(credentials=vworld.creds(proto))
+        if twice:
+            # the same read operation twice at the same time on this client (the clock steps between their id reads);
+            # the first result is judged below, the second must be equal
+            import asyncio
+
+            if op == "get":
+                a, b = await asyncio.gather(client.get(O(SCALAR)), client.get(O(SCALAR)))
+            elif op == "multiget":
+                a, b = await asyncio.gather(client.multiget([O(SCALAR), O(COL1 + (1,)), O(COL2 + (2,))]),
+                                            client.multiget([O(SCALAR), O(COL1 + (1,)), O(COL2 + (2,))]))
+            elif op == "getnext":
+                a, b = await asyncio.gather(client.getnext(O(COL1)), client.getnext(O(COL1)))
+            else:
+                a = b = None
+            if a is not None:
+                if vworld.observe(a) != vworld.observe(b) if op == "get" else repr(a) != repr(b):
+                    raise AssertionError("two identical concurrent operations returned %r and %r" % (a, b))
+                return a
         if op == "get":
             return await client.get(O(SCALAR))
         if op == "multiget":
@@ -309,6 +339,8 @@ def cases(draw):
                 clock=draw(st.one_of(st.sampled_from([5, 1_700_000_000, 1_700_000_000.5, 1_700_000_000.999, 2 ** 31 - 100]),
                                      st.floats(1, 2 ** 31 - 1000, allow_nan=False))),
                 inc=draw(INCS), bulk=draw(st.sampled_from([1, 2, 3, 10])))
+    if kind == "none" and draw(st.integers(0, 3)) == 0:
+        case["twice"] = True
     if draw(st.integers(0, 7)) == 0:
         # history: a complete exchange under other credentials first (same or other family), then configure()
         if proto["v"] == "3":
